@@ -12,7 +12,8 @@ for mp in sorted(glob.glob(os.path.join(VERIF, "seeded", pid + "-m*", "meta.json
     m = json.load(open(mp))
     prior.append("- " + (m.get("summary") or "")[:200] + " (" + ", ".join(m.get("files_touched", [])) + ")")
 prior_txt = ("\nCHANGES ALREADY PROPOSED BY OTHERS (do not repeat these or close variants of them; look at other functions, other mechanisms of the property):\n" + "\n".join(prior) + "\n") if prior and len(sys.argv) > 3 else ""
-wt, out = ("/tmp/mut2/%s" % pid, "/tmp/mut2/%s-out" % pid) if len(sys.argv) > 3 else (wt, out)
+rnd = sys.argv[3] if len(sys.argv) > 3 else ""
+wt, out = ("/tmp/mut%s/%s" % (rnd, pid), "/tmp/mut%s/%s-out" % (rnd, pid)) if rnd else (wt, out)
 print(f"""You are helping to evaluate how sensitive a (hidden) verification suite is. You get one semantic property of the Scheme interpreter chibi-scheme (C + Scheme libraries) and your own scratch git worktree of its repository. Your job: produce {n} DIFFERENT realistic source changes, each of which BREAKS the property, yet still compiles and still passes the repository's existing test suite.
 
 THE PROPERTY ({pid}): {p['title']}
@@ -25,7 +26,7 @@ Code it is anchored in: {', '.join(p['anchors']['files'])}
 YOUR WORKTREE: {wt} (a git worktree; work ONLY there and in {out}, which you create for results). Do NOT read, list or touch /repo or /verif or any other directory of this machine besides your worktree, {out} and system tools: you must work from the property text and the source alone.
 
 Build + test suite (run from the worktree; the whole suite must still pass with each of your changes applied):
-  cd {wt} && cmake -G Ninja -B _build -S . >/dev/null && cmake --build _build 2>&1 | tail -3 && ctest --test-dir _build -j8 --timeout 900 2>&1 | tail -8
+  cd {wt} && cmake -G Ninja -B _build -S . >/dev/null && cmake --build _build 2>&1 | tail -3 && ctest --test-dir _build -j6 --timeout 900 2>&1 | tail -8
 The interpreter is then {wt}/_build/chibi-scheme; run programs with
   cd {wt} && ./_build/chibi-scheme -I _build/lib prog.scm        (use `timeout 120`)
 (Files named include/chibi/verif.h and code inside `#if CHIBI_VERIF` / `#ifdef CHIBI_VERIF` are instrumentation call-outs that are compiled out by default: do not touch them.)
@@ -41,4 +42,4 @@ For each change i = 1..{n}:
  2. write the demonstration program(s) into {out}/ and run them on the changed build and (after step 4) on the original build, keeping both outputs;
  3. save the change: `git -C {wt} diff > {out}/m<i>.patch` and write {out}/m<i>.md containing: one paragraph on what the change does and why it breaks the property, what specific circumstances are needed to see it, the exact demonstration command(s), the output on the original tree and on the changed tree, and the tail of the ctest summary with the change applied;
  4. `git -C {wt} checkout -- .` (and rebuild) before starting the next change, so that each patch applies to the pristine worktree on its own.
-Do not commit anything. Leave the worktree pristine at the end (you may leave _build). Time box: about 60-90 minutes in total. Final answer: for each change, the patch path, a two-sentence description and the demonstration command.""")
+Do not commit anything. Leave the worktree pristine at the end (you may leave _build). Time box: about 45 minutes in total (hard limit 55 minutes: if you are past it, stop and report what you have). Final answer: for each change, the patch path, a two-sentence description and the demonstration command.""")
